@@ -14,7 +14,10 @@ def auditModule (env : Environment) (mod : Name) : IO Unit := do
   for (n, ci) in env.constants.toList do
     if env.getModuleIdxFor? n == some idx then
       if let .thmInfo _ := ci then
-        if !n.isInternalDetail && (n.toString.splitOn "._").length == 1 then
+        -- skip compiler-generated equation lemmas of definitions and the projections of Prop-valued structures
+        let last := match n with | .str _ s => s | _ => ""
+        let isEqn := last == "eq_def" || (last.startsWith "eq_" && (last.drop 3).all Char.isDigit)
+        if !n.isInternalDetail && (n.toString.splitOn "._").length == 1 && !isEqn && !(env.isProjectionFn n) then
           names := names.push n
   let sorted := names.qsort (fun a b => a.toString < b.toString)
   for n in sorted do
